@@ -63,6 +63,7 @@ var specs = map[string]func(*spec){
 		s.Fuzz = []string{"FuzzDecode"}
 		s.FuzzTime = 8 * time.Minute
 		s.ReplayTest = "TestReplay"
+		s.TimeoutThor = 150 * time.Minute
 	},
 	"C07": func(s *spec) { s.ShardsQuick = 16 },
 	"C08": func(s *spec) { s.ShardsQuick = 16 },
